@@ -189,6 +189,50 @@ def rule_r4(ctx):
                   how="C06 forward may-analysis (M before C) on the function's CFG")
 
 
+def rule_r4b(ctx):
+    """The duplicate-axis test of Node.shard compares like with like: the stored axis and the requested axis go through
+    the same normalisation (negative axes count from the end), so axis -1 and axis rank-1 are recognised as the same."""
+    f = ctx.repo.func(f"{CORE}:Node.shard")
+    axis_p = "axis" if "axis" in f.params else None
+    ctx.require(axis_p is not None, "Node.shard(axis=) parameter not found")
+    scopes = [f] + list(f.nested.values())
+
+    def normalised(e, scope) -> bool:
+        """e's value went through a rank-based normalisation (a call of a local helper that reads rank, or a local
+        whose definition mentions rank)."""
+        for x in ast.walk(e):
+            if isinstance(x, ast.Call) and isinstance(x.func, ast.Name) and x.func.id in f.nested and any(
+                    isinstance(y, ast.Name) and y.id == "rank" for y in ast.walk(f.nested[x.func.id].node)):
+                return True
+            if isinstance(x, ast.Name) and x.id != axis_p:
+                for a in own_nodes(f.node):
+                    if isinstance(a, ast.Assign) and any(isinstance(t, ast.Name) and t.id == x.id for t in a.targets) and any(
+                            isinstance(y, ast.Name) and y.id == "rank" for y in ast.walk(a.value)) and any(
+                            isinstance(y, ast.Name) and y.id == axis_p for y in ast.walk(a.value)):
+                        return True
+        return False
+
+    n = 0
+    for g in scopes:
+        for c in (x for x in own_nodes(g.node) if isinstance(x, ast.Compare) and len(x.ops) == 1 and isinstance(x.ops[0], (ast.Eq, ast.In, ast.NotEq, ast.NotIn))):
+            sides = [c.left, c.comparators[0]]
+            stored = [sd for sd in sides if any(isinstance(y, ast.Attribute) and y.attr == "axis" for y in ast.walk(sd))]
+            other = [sd for sd in sides if sd not in stored]
+            if len(stored) != 1 or len(other) != 1:
+                continue
+            if not any(isinstance(y, ast.Name) and (y.id == axis_p or normalised(y, g)) for y in ast.walk(other[0])) and not normalised(other[0], g):
+                continue
+            n += 1
+            a, b = normalised(stored[0], g), normalised(other[0], g)
+            ctx.check("R4", f"Node.shard: `{norm(c)}` normalises both axes alike", a == b, f, c,
+                      f"`{norm(c)}` compares a {'normalised' if a else 'raw'} stored axis with a {'normalised' if b else 'raw'} requested axis: a value first "
+                      "sharded along axis -1 is not recognised when the same axis is requested as rank-1, so the repeated axis is accepted and the "
+                      "spec carries one axis twice",
+                      how="both operands of the duplicate-axis comparison pass (or both do not pass) through the rank-based normalisation",
+                      construct="duplicate-axis test normalises one side only")
+    ctx.require(n >= 1, "Node.shard: duplicate-axis comparison not found")
+
+
 def rule_r5(ctx):
     repo = ctx.repo
     cn = repo.func("onnx_ir._cloner:Cloner.clone_node")
@@ -293,6 +337,7 @@ def run(ctx):
     rule_r2(ctx)
     rule_r3(ctx)
     rule_r4(ctx)
+    rule_r4b(ctx)
     rule_r5(ctx)
     rule_r6(ctx)
     from ..shared import scope_precedence_sites
